@@ -226,6 +226,8 @@ def ctype(t, name):
     if isinstance(t, tuple) and t[0] == 'arr':
         return '%s %s[%d]' % (CT[t[1]], name, t[2])
     if t == 'ptr': return 'char *%s' % name
+    if t == 'kptr': return 'const unsigned char *%s' % name          # address constant (a hardware register)
+    if t == 'ptrk': return 'unsigned char * const %s' % name
     return '%s %s' % (CT[t], name)
 
 
